@@ -105,4 +105,16 @@ CLAIMS = {
         "(validated against the real functions on a grid each run).",
         "technique": "symbolic execution of the real code (CrossHair+z3) + AST-to-SMT translation of the FP categorisation kernels (z3/cvc5 FP64), counterexamples replayed",
     },
+    "C09": {
+        "text": "Bounded symbolic checking of the real pipeline Simulation.describe_state() -> ObservationManager.update "
+        "on the observation tree of a generated scenario: ground truth is written onto the simulator objects as solver "
+        "values (every member of the operating-state and health enums, actual and visible health independently, "
+        "unbounded counts, interface flags, ACL slot contents through add_rule, link loads, NMNE counts over two "
+        "steps) and every leaf is compared with the documented encoding computed from the objects; scan-gated and "
+        "true-health configurations; non-ON nodes and padding slots read as defaults; slot -> component assignment.",
+        "note": "Bounds: one family symbolic at a time (service / application / file / folder / power+counters / ACL / "
+        "link / NMNE), thresholds of the generated scenario, 4 observed ACL slots, 9 link loads. Firewall and user-session "
+        "leaves are not covered. Trusted: CrossHair/z3, the reference encodings (from the observation classes' docstrings).",
+        "technique": TECH_S,
+    },
 }
